@@ -195,6 +195,8 @@ def branchOf {N : Nat} (pre : Node1 N) (inp : Input N) (post : Node1 N) (resps :
   | .selfAck => if pre.role = .leader then "selfAck" ++ cm else "selfAck/not-leader"
   | .beat => "beat"
   | .restart => "restart/was-" ++ roleStr pre.role
+  | .snapStatus _ failed => "snapStatus/" ++ (if failed then "failure" else "finish") ++ (if pre.role = .leader then "" else "/not-leader")
+  | .unreachable _ => "unreachable" ++ (if pre.role = .leader then "" else "/not-leader")
   | .recv m =>
     if m.term < pre.term then "recv/" ++ msgKind m ++ "/stale-term" else
     let hi := if pre.term < m.term then "/higher-term" ++ (if pre.role = .leader then "-deposes-leader" else "") else ""
@@ -224,6 +226,35 @@ def branchOf {N : Nat} (pre : Node1 N) (inp : Input N) (post : Node1 N) (resps :
          else if k ≤ pre.commit then "recv/snap/ignore-old"
          else if post.log = pre.log then "recv/snap/fast-forward" else "recv/snap/restore") ++ hi
 
+/-- `tracker.Progress` as `harness/raftsim.go` `progOf` writes it: `state,Match,Next,PendingSnapshot,ProbeSent,inflights` (etcd's indexes) -/
+def parseProg (s : String) : Option Prog :=
+  match s.splitOn "," with
+  | [st, m, nx, ps, pb, fl] => do
+      let st ← if st == "P" then some PState.probe else if st == "R" then some .replicate else if st == "S" then some .snapshot else none
+      return ⟨st, ← m.toNat?, ← nx.toNat?, ← ps.toNat?, ← bool? pb, ← fl.toNat?⟩
+  | _ => none
+
+def progStr (p : Prog) : String :=
+  let st := match p.state with | .probe => "P" | .replicate => "R" | .snapshot => "S"
+  s!"{st},{p.matchI},{p.next},{p.pendingSnapshot},{if p.probeSent then 1 else 0},{p.inflights}"
+
+/-- a report event (`snapst:<from>:<failed>:<pre>:<post>` / `unreach:<from>:<pre>:<post>`): the `Progress` record of `from` observed after the
+    report must be `RS.reportProg` of the one observed before it (every field), the observed `Match` before it must be the model's `matchI from`
+    (index shift 1: the harness's logs start with a snapshot at index 1), and only a node without a tracker entry may show none -/
+def checkReport {N : Nat} (n : Node1 N) (src : Fin N) (mi : Input N) (pre post : String) : Except String String := do
+  if pre == "-" || post == "-" then
+    if n.role = .leader then throw s!"report: the model's node is a leader, the implementation shows no Progress for {src.val}"
+    else return "no-progress"
+  match parseProg pre, parseProg post with
+  | some p, some q =>
+    if n.role ≠ .leader then throw s!"report: the model's node is no leader, the implementation shows Progress {pre}"
+    if p.matchI - 1 ≠ n.matchI src then throw s!"report: match[{src.val}] model={n.matchI src} impl={p.matchI - 1} before the report"
+    let want := reportProg n p mi
+    if want ≠ q then throw s!"progress[{src.val}] after the report: model={progStr want} impl={post} (before: {pre})"
+    return (match p.state with | .probe => "from-probe" | .replicate => "from-replicate" | .snapshot => "from-snapshot") ++
+      (if want.next ≠ p.next then "+next" else "")
+  | _, _ => throw s!"unparsable progress {pre} / {post}"
+
 /-- run the model inputs of one event; returns the calls performed, or an error text -/
 def runInputs {N : Nat} (sent : Std.HashSet String) (i : Fin N) (n0 : Node1 N) (inputs : List String) :
     Except String (Node1 N × List (Call N) × List String) := do
@@ -239,6 +270,23 @@ def runInputs {N : Nat} (sent : Std.HashSet String) (i : Fin N) (n0 : Node1 N) (
       else if inp == "selfAck" then pure (Input.selfAck, (fun _ _ => []), "selfAck")
       else if inp == "beat" then pure (Input.beat, (fun _ _ => []), "beat")
       else if inp == "restart" then pure (Input.restart, (fun _ _ => []), "restart")
+      else if inp.startsWith "snapst:" || inp.startsWith "unreach:" then
+        match inp.splitOn ":" with
+        | ["snapst", f, fl, pre, post] =>
+          match fin? N f, bool? fl with
+          | some src, some failed =>
+            let mi := Input.snapStatus src failed
+            let how ← checkReport n src mi pre post
+            pure (mi, (fun _ _ => []), "report-snapshot-" ++ (if failed then "failure/" else "finish/") ++ how)
+          | _, _ => throw s!"bad input {inp}"
+        | ["unreach", f, pre, post] =>
+          match fin? N f with
+          | some src =>
+            let mi := Input.unreachable src
+            let how ← checkReport n src mi pre post
+            pure (mi, (fun _ _ => []), "report-unreachable/" ++ how)
+          | none => throw s!"bad input {inp}"
+        | _ => throw s!"bad input {inp}"
       else if inp.startsWith "prop:" then
         match (inp.drop 5).toString.toNat? with
         | some v => pure (Input.prop v, (fun _ (post : Node1 N) =>
